@@ -329,7 +329,9 @@ fn judge_resampled2(
         let worst = m.v.iter().map(|p| dist_poly2(&ov, p)).fold(0.0, f64::max);
         c.close(api, "original vertices within spacing/2 of the output", class, worst, 0.0, arc_spacing / 2.0 + tol + eps);
     }
-    c.check(api, "length <= original length", class, poly_len2(&ov) <= src.length() + eps + if closed { arc_spacing } else { 0.0 }, || {
+    c.check(api, "length <= original length", class, poly_len2(&ov) <= src.length() + eps + if closed { arc_spacing + tol } else { 0.0 }, || {
+        // (closed: the output closes on its first vertex; a source that is closed only within its
+        // tolerance has a seam of up to `tol` that its own length does not count)
         format!("output {:e} > source {:e}", poly_len2(&ov), src.length())
     });
 }
